@@ -207,7 +207,7 @@ def scramServerFinal (env : ScramEnv) (st : ScramSt) (fromServer : Bytes) : Scra
 
 def scramMech (env : ScramEnv) : Mech ScramSt :=
   { init := {},
-    start := fun st _ => (st, .ok (env.algorithm, none)),
+    start := fun st _ => (scramReset st, .ok (env.algorithm, none)),   -- Start begins a new exchange: nothing of an earlier one survives
     next := fun st fromServer more =>
       if more then
         if fromServer.isEmpty then scramFirst env (scramReset st)
